@@ -75,10 +75,15 @@ type MemConn struct {
 	Tap   *Tap
 	start time.Time
 
+	gated atomic.Bool
+
 	mu       sync.Mutex
 	services map[string]svcEntry
 	links    []*Link
 }
+
+// SetGated switches gating of newly emitted frames on or off.
+func (c *MemConn) SetGated(on bool) { c.gated.Store(on) }
 
 type svcEntry struct {
 	desc *grpc.ServiceDesc
@@ -91,7 +96,9 @@ func NewMemConn(cfg ConnConfig, tap *Tap) *MemConn {
 	if tap == nil {
 		tap = NewTap()
 	}
-	return &MemConn{Cfg: cfg, Tap: tap, start: time.Now(), services: map[string]svcEntry{}}
+	c := &MemConn{Cfg: cfg, Tap: tap, start: time.Now(), services: map[string]svcEntry{}}
+	c.gated.Store(cfg.Gated)
+	return c
 }
 
 // RegisterService implements grpc.ServiceRegistrar.
@@ -372,7 +379,7 @@ func (l *Link) serverReturn(err error) {
 		return
 	}
 	l.flushHeaderLocked()
-	it := &item{end: true, st: st, trailer: l.srvTrailer, readyAt: l.now().Add(l.conn.Cfg.Latency), released: !l.conn.Cfg.Gated}
+	it := &item{end: true, st: st, trailer: l.srvTrailer, readyAt: l.now().Add(l.conn.Cfg.Latency), released: !l.conn.gated.Load()}
 	l.p[S2C].q = append(l.p[S2C].q, it)
 	l.cond.Broadcast()
 }
@@ -482,7 +489,7 @@ func (l *Link) send(d Dir, m any, stop func() error) error {
 			return err
 		}
 	}
-	it := &item{data: data, msg: proto.Clone(pm), readyAt: l.now().Add(cfg.Latency), released: !cfg.Gated}
+	it := &item{data: data, msg: proto.Clone(pm), readyAt: l.now().Add(cfg.Latency), released: !l.conn.gated.Load()}
 	l.p[d].q = append(l.p[d].q, it)
 	l.p[d].bytes += len(data)
 	l.conn.Tap.record(&TapEvent{Link: l, Kind: "emit", Dir: d, Msg: it.msg, Bytes: len(data)})
@@ -567,7 +574,7 @@ func (s *memClientStream) CloseSend() error {
 	}
 	l.closeSent = true
 	l.conn.Tap.record(&TapEvent{Link: l, Kind: "close-send"})
-	it := &item{end: true, readyAt: l.now().Add(l.conn.Cfg.Latency), released: !l.conn.Cfg.Gated}
+	it := &item{end: true, readyAt: l.now().Add(l.conn.Cfg.Latency), released: !l.conn.gated.Load()}
 	l.p[C2S].q = append(l.p[C2S].q, it)
 	l.cond.Broadcast()
 	return nil
@@ -707,7 +714,7 @@ func (s *memServerStream) SendMsg(m any) error {
 		e := status.Error(codes.Internal, me.Error())
 		l.mu.Lock()
 		if !l.srvDone && l.srvAbortErr == nil {
-			it := &item{end: true, st: status.Convert(e), readyAt: l.now().Add(l.conn.Cfg.Latency), released: !l.conn.Cfg.Gated}
+			it := &item{end: true, st: status.Convert(e), readyAt: l.now().Add(l.conn.Cfg.Latency), released: !l.conn.gated.Load()}
 			l.p[S2C].q = append(l.p[S2C].q, it)
 			l.srvAbortErr = e
 			l.srvCancel()
